@@ -21,6 +21,27 @@ from ..oracles import emfmt, mrcfmt
 
 SITE_OOB = "remove_out_of_bounds_particles"
 SITE_TRIM = "adapt_to_trimming"
+
+
+def _snap(x):
+    """repr-able snapshot of a caller-owned argument (array, list, DataFrame, nested list of arrays)."""
+    import pandas as _pd
+
+    if isinstance(x, np.ndarray):
+        return ("nd", x.shape, str(x.dtype), x.tobytes())
+    if isinstance(x, _pd.DataFrame):
+        # values only: dimensions_load relabels the columns of a DataFrame argument (x, y, z / tomo_id, x, y, z), which no
+        # later call can observe in its results, so labels are not part of the snapshot
+        return ("df", x.shape, x.to_numpy(dtype=float).tobytes() if x.size else b"")
+    if isinstance(x, (list, tuple)):
+        return ("seq", tuple(_snap(v) for v in x))
+    return ("val", repr(x))
+
+
+def check_args_untouched(obs, site, before, *args):
+    """The caller's own argument objects are passed again to the next call (next list, next tomogram): they must come
+    back unchanged."""
+    obs.check(tuple(_snap(a) for a in args) == before, site, "argument-untouched", "an argument object of the caller was modified in place")
 SITE_DIST = "clean_by_distance_to_points"
 SITE_MASK = "clean_by_tomo_mask"
 
@@ -313,9 +334,11 @@ def make_oob_execute(seed):
         kw = {"boundary_type": boundary}
         if boundary == "whole":
             kw["box_size"] = box
+        snap = (_snap(arg),)
         try:
             with quiet():
                 obs.lib(SITE_OOB, m.remove_out_of_bounds_particles, arg, **kw)
+            check_args_untouched(obs, SITE_OOB, snap, arg)
         except LibError as le:
             e = le.exc
             obs.fail(SITE_OOB, f"exception:{type(e).__name__}", f"dimensions given as {form}: {e!r}", cls=cls_exc)
@@ -402,8 +425,10 @@ def make_trim_execute(seed, boxes):
         obs.nontrivial = len(set(expect.values())) == 2
         m = obs.lib("Motl.__init__", cm.Motl, make_frame(rows, gapped_index=(form == "list")))
         a0, a1 = (np.array(start), np.array(end)) if form == "array" else (list(start), list(end))
+        snap = tuple(_snap(v) for v in (a0, a1))
         with quiet():
             obs.lib(SITE_TRIM, m.adapt_to_trimming, a0, a1)
+        check_args_untouched(obs, SITE_TRIM, snap, a0, a1)
         kept = judge_survivors(obs, SITE_TRIM, m.df, rows, expected_xyz=newxyz)
         if kept is None:
             obs.outcome = ("bad-result",)
@@ -536,7 +561,9 @@ def make_dist_execute(seed, cfgs):
         cls_cfg = "all-removed" if all(truth.values()) else ""
         try:
             with quiet():
+                snap = (_snap(pts_df),)
                 res = obs.lib(SITE_DIST, m.clean_by_distance_to_points, pts_df, radius, inplace=inplace)
+                check_args_untouched(obs, SITE_DIST, snap, pts_df)
         except LibError as le:
             e = le.exc
             obs.fail(SITE_DIST, f"exception:{type(e).__name__}", repr(e), cls=cls_cfg)
@@ -709,9 +736,11 @@ def make_mask_execute(seed, cfgs):
         has_neg = any(k.startswith("NEG") for k in kinds)
         has_bey = any(k.startswith("BEY") for k in kinds) or (not per_tomo and "P2b" in kinds) or (per_tomo and "P2c" in kinds)
         list_cls = "with-negative-coordinate" if has_neg else ("with-particle-beyond-volume" if has_bey else "all-inside-volume")
+        snap = (_snap(tomo_list), _snap(masks))
         try:
             with quiet():
                 res = obs.lib(SITE_MASK, m.clean_by_tomo_mask, tomo_list, masks, inplace=inplace)
+            check_args_untouched(obs, SITE_MASK, snap, tomo_list, masks)
         except LibError as le:
             e = le.exc
             obs.fail(SITE_MASK, f"exception:{type(e).__name__}", repr(e), cls=list_cls)
